@@ -150,6 +150,45 @@ impl POpt {
                 Syn::Elisp => CharSyntax::Elisp,
             })
     }
+    /// The same option set reached by another route through the builder API:
+    /// starting from the Emacs Lisp set and overriding every field.
+    pub fn to_lexpr_alt(&self) -> POptions {
+        let base = self.to_lexpr();
+        let _ = base;
+        POptions::elisp()
+            .with_char_syntax(match self.chr {
+                Syn::R6RS => CharSyntax::R6RS,
+                Syn::Elisp => CharSyntax::Elisp,
+            })
+            .with_string_syntax(match self.string {
+                Syn::R6RS => StringSyntax::R6RS,
+                Syn::Elisp => StringSyntax::Elisp,
+            })
+            .with_bytes_syntax(match self.bytes {
+                PBytes::R7RS => BytesSyntax::R7RS,
+                PBytes::R6RS => BytesSyntax::R6RS,
+                PBytes::Elisp => BytesSyntax::Elisp,
+            })
+            .with_vector_syntax(match self.vec {
+                PVec::Octothorpe => VectorSyntax::Octothorpe,
+                PVec::Brackets => VectorSyntax::Brackets,
+            })
+            .with_bool_syntax(match self.boolean {
+                PBool::Token => BoolSyntax::Token,
+                PBool::Symbol => BoolSyntax::Symbol,
+            })
+            .with_nil_syntax(match self.nil {
+                PNil::Token => NilSyntax::Token,
+                PNil::Symbol => NilSyntax::Symbol,
+                PNil::EmptyList => NilSyntax::EmptyList,
+                PNil::False => NilSyntax::False,
+            })
+            .with_keyword_syntax(match self.kw {
+                Kw::Octothorpe => KeywordSyntax::Octothorpe,
+                Kw::ColonPrefix => KeywordSyntax::ColonPrefix,
+                Kw::ColonPostfix => KeywordSyntax::ColonPostfix,
+            })
+    }
     /// true when this printer prints `nil` for Nil or false
     pub fn prints_nil_symbol(&self) -> bool {
         self.nil == PNil::Symbol || self.boolean == PBool::Symbol
@@ -276,6 +315,40 @@ impl QOpt {
         })
         .with_racket_hash_percent_symbols(self.racket)
         .with_leading_digit_symbols(self.digits)
+    }
+    /// The same option set reached by another route through the builder API:
+    /// starting from the Emacs Lisp set, replacing the keyword syntaxes with
+    /// the plural setter and overriding every other field, last to first.
+    pub fn to_lexpr_alt(&self) -> QOptions {
+        let mut kws = Vec::new();
+        if self.kw_octo {
+            kws.push(KeywordSyntax::Octothorpe);
+        }
+        if self.kw_postfix {
+            kws.push(KeywordSyntax::ColonPostfix);
+        }
+        if self.kw_prefix {
+            kws.push(KeywordSyntax::ColonPrefix);
+        }
+        QOptions::elisp()
+            .with_leading_digit_symbols(self.digits)
+            .with_racket_hash_percent_symbols(self.racket)
+            .with_char_syntax(match self.chr {
+                Syn::R6RS => CharSyntax::R6RS,
+                Syn::Elisp => CharSyntax::Elisp,
+            })
+            .with_string_syntax(match self.string {
+                Syn::R6RS => StringSyntax::R6RS,
+                Syn::Elisp => StringSyntax::Elisp,
+            })
+            .with_brackets(if self.brackets_vector { Brackets::Vector } else { Brackets::List })
+            .with_t_symbol(if self.t_true { TSymbol::True } else { TSymbol::Default })
+            .with_nil_symbol(match self.nil {
+                QNil::Default => NilSymbol::Default,
+                QNil::EmptyList => NilSymbol::EmptyList,
+                QNil::Special => NilSymbol::Special,
+            })
+            .with_keyword_syntaxes(kws.iter())
     }
     pub fn kw_enabled(&self, k: Kw) -> bool {
         match k {
